@@ -127,6 +127,8 @@ func (r *c02Any) Len(list interface{}) int {
 		return len(l)
 	case []*C02Obj:
 		return len(l)
+	case []C02Obj:
+		return len(l)
 	}
 	return 0
 }
@@ -137,6 +139,8 @@ func (r *c02Any) Nth(list interface{}, i int) (interface{}, error) {
 		return l[i], nil
 	case []*C02Obj:
 		return l[i], nil
+	case []C02Obj:
+		return &l[i], nil
 	}
 	return nil, nil
 }
@@ -144,7 +148,7 @@ func (r *c02Any) Nth(list interface{}, i int) (interface{}, error) {
 // c02Builder turns the neutral graph into representations.
 type c02Builder struct {
 	rep      func(id string) int
-	listKind int // 0: []interface{}  1: ListResolver / typed slice where the representation has one
+	listKind int // 0: []interface{}  1: ListResolver / typed slice of pointers  2: typed slice of struct values (reflection)
 	log      *[]string
 	memo     map[*node]interface{}
 }
@@ -221,6 +225,18 @@ func (b *c02Builder) list(n *node, rep int) interface{} {
 			}
 			return typed
 		}
+	}
+	if b.listKind == 2 && rep == repStruct && allStruct {
+		// a slice of struct VALUES: the same GraphQL type is then reached through
+		// C02Obj here and through *C02Obj at the object fields
+		vals := make([]C02Obj, 0, len(items))
+		for _, e := range items {
+			if e == nil {
+				return items // (a value slice cannot hold a null)
+			}
+			vals = append(vals, *e.(*C02Obj))
+		}
+		return vals
 	}
 	return items
 }
@@ -309,7 +325,7 @@ func C02_equiv() {
 	c02Eager(q, map[*node]bool{})
 	doc := sh.render()
 	sym.Observe("doc", doc)
-	listKind := sym.Choice("list kind", 2)
+	listKind := sym.Choice("list kind", 3)
 	sym.Budget(12_000_000)
 	base := c02Root(0, q, listKind, &log).ResolveString(doc, "", nil)
 	sym.Observe("base", base)
@@ -340,7 +356,7 @@ func C02_mixed() {
 	var log []string
 	q := newGraphWith(&log, maxList, true)
 	c02Eager(q, map[*node]bool{})
-	listKind := sym.Choice("list kind", 2)
+	listKind := sym.Choice("list kind", 3)
 	sym.Budget(12_000_000)
 	base := c02Root(0, q, listKind, &log).ResolveString(doc, "", nil)
 	sym.Observe("base", base)
